@@ -8,7 +8,8 @@
 //	             -> ok T=.. N=.. S=.. P=<prod>,<prod>.. eq=<t|f> v=<t|f> [cnf=<t|f>] [order=<hex>,..]
 //	             -> PANIC:<reason> | HANG | TIMEOUT (ELR only: exponential case cut by the watchdog) | INVALID | LARGE n=<productions> eq=<t|f>   (output too large to compare)
 //	         NULLABLE -> ok N=<hex>,..
-//	         PBT|LR0|LR1|LR0K|LR1K -> ok eq=<t|f>
+//	         PBT|LR0|LR1|LR0K|LR1K|LRS|LRL|LRC -> ok eq=<t|f>      (LRS/LRL/LRC: simple/lookahead/canonical.BuildParsingTable)
+//	header M=s: the bodies of the receiver share backing arrays / have spare capacity (buildLayout)
 //	         SUFFIXES -> ok prime=<hex>,.. alpha=.. numeric=..
 //
 // All transformation ops of a case are applied to the same input grammar (all P ops of the
@@ -26,6 +27,9 @@ import (
 
 	"github.com/moorara/algo/grammar"
 	"github.com/moorara/algo/parser/lr"
+	"github.com/moorara/algo/parser/lr/canonical"
+	"github.com/moorara/algo/parser/lr/lookahead"
+	"github.com/moorara/algo/parser/lr/simple"
 	"github.com/moorara/algo/parser/predictive"
 
 	"verif/harness/internal/rng"
@@ -129,34 +133,91 @@ func rawName(s grammar.Symbol) string {
 }
 
 func build(start string, extraT []string, ps []prod) *grammar.CFG {
+	return buildLayout(start, extraT, ps, false)
+}
+
+// buildLayout builds the grammar; with shared = true the bodies are laid out the way client code
+// may legitimately hold them: a body that is a prefix of a longer body is a prefix SLICE of that
+// body's backing array (cap > len, the next cells belong to the longer body), and every other body
+// has spare capacity behind it (as after append).  Writing behind len then corrupts another body
+// or goes unnoticed by Clone (which shares the arrays): results are compared with a grammar
+// rebuilt independently from the case text.
+func buildLayout(start string, extraT []string, ps []prod, shared bool) *grammar.CFG {
 	var terms []grammar.Terminal
 	var nts []grammar.NonTerminal
-	var prods []*grammar.Production
 	for _, t := range extraT {
 		terms = append(terms, grammar.Terminal(t))
 	}
 	nts = append(nts, grammar.NonTerminal(start))
-	for _, p := range ps {
-		nts = append(nts, grammar.NonTerminal(p.head))
+	conv := func(p prod) grammar.String[grammar.Symbol] {
 		body := grammar.String[grammar.Symbol]{}
 		for _, s := range p.body {
 			if s.term {
-				terms = append(terms, grammar.Terminal(s.name))
 				body = append(body, grammar.Terminal(s.name))
 			} else {
-				nts = append(nts, grammar.NonTerminal(s.name))
 				body = append(body, grammar.NonTerminal(s.name))
 			}
 		}
-		prods = append(prods, &grammar.Production{Head: grammar.NonTerminal(p.head), Body: body})
+		return body
+	}
+	bodies := make([]grammar.String[grammar.Symbol], len(ps))
+	if !shared {
+		for i, p := range ps {
+			bodies[i] = conv(p)
+		}
+	} else {
+		// longest first, so that a shorter body can be carved out of an already placed longer one
+		idx := make([]int, len(ps))
+		for i := range idx {
+			idx[i] = i
+		}
+		sort.SliceStable(idx, func(a, b int) bool { return len(ps[idx[a]].body) > len(ps[idx[b]].body) })
+		var placed []grammar.String[grammar.Symbol]
+		for _, i := range idx {
+			b := conv(ps[i])
+			done := false
+			for _, l := range placed {
+				if len(l) > len(b) && l[:len(b)].Equal(b) {
+					bodies[i] = l[:len(b)] // prefix slice: cap(l) > len
+					done = true
+					break
+				}
+			}
+			if !done {
+				nb := make(grammar.String[grammar.Symbol], len(b), len(b)+2) // spare capacity
+				copy(nb, b)
+				bodies[i] = nb
+				placed = append(placed, nb)
+			}
+		}
+	}
+	var prods []*grammar.Production
+	for i, p := range ps {
+		nts = append(nts, grammar.NonTerminal(p.head))
+		for _, s := range p.body {
+			if s.term {
+				terms = append(terms, grammar.Terminal(s.name))
+			} else {
+				nts = append(nts, grammar.NonTerminal(s.name))
+			}
+		}
+		prods = append(prods, &grammar.Production{Head: grammar.NonTerminal(p.head), Body: bodies[i]})
 	}
 	return grammar.NewCFG(terms, nts, prods, grammar.NonTerminal(start))
 }
 
+// frameOps: also build the LR parsing tables (flag -frame, used by C09)
+var frameOps bool
+
+// lrEvery: in the exhaustive batch the LR tables are built for every lrEvery-th grammar only
+var lrEvery, emitted = 1, 0
+
 // guarded runs f under recover and a watchdog.
 var hung int
 
-func guarded(f func() string) string {
+func guarded(f func() string) string { return guardedT(f, 10*time.Second) }
+
+func guardedT(f func() string, limit time.Duration) string {
 	ch := make(chan string, 1)
 	go func() {
 		defer func() {
@@ -188,7 +249,7 @@ func guarded(f func() string) string {
 	select {
 	case r := <-ch:
 		return r
-	case <-time.After(10 * time.Second):
+	case <-time.After(limit):
 		hung++
 		return "HANG"
 	}
@@ -201,9 +262,9 @@ func b(x bool) string {
 	return "f"
 }
 
-func transform(g *grammar.CFG, op string) string {
+func transform(g, ref *grammar.CFG, op string) string {
 	extra := ""
-	res := transform1(g, op, &extra)
+	res := transform1(g, ref, op, &extra)
 	if op == "ELR" && res == "HANG" {
 		// Paull's algorithm is exponential in the worst case even on small cycle-free grammars: the
 		// watchdog firing here is a time-out of this harness, not a hang (C08/C09 do not bound time)
@@ -217,9 +278,12 @@ func transform(g *grammar.CFG, op string) string {
 	return res
 }
 
-func transform1(g *grammar.CFG, op string, extraOut *string) string {
-	return guarded(func() string {
-		clone := g.Clone()
+func transform1(g, clone *grammar.CFG, op string, extraOut *string) string {
+	limit := 10 * time.Second
+	if op == "ELR" {
+		limit = 3 * time.Second // exponential cases are cut early (reported as TIMEOUT)
+	}
+	return guardedT(func() string {
 		var out *grammar.CFG
 		extra := ""
 		switch op {
@@ -265,12 +329,20 @@ func transform1(g *grammar.CFG, op string, extraOut *string) string {
 			return fmt.Sprintf("LARGE n=%d eq=%s", np, b(g.Equal(clone) && clone.Equal(g)))
 		}
 		return "ok " + encGrammar(out) + " eq=" + b(g.Equal(clone) && clone.Equal(g)) + " v=" + b(out.Verify() == nil) + extra
-	})
+	}, limit)
 }
 
-func other(g *grammar.CFG, op string) string {
+func other(g, clone *grammar.CFG, op string) string {
+	res := other1(g, clone, op)
+	if (op == "LRC" || op == "LRL" || op == "LRS") && res == "HANG" {
+		hung-- // LR(1) automata can be large: a time-out of this harness, not a hang
+		return "TIMEOUT"
+	}
+	return res
+}
+
+func other1(g, clone *grammar.CFG, op string) string {
 	return guarded(func() string {
-		clone := g.Clone()
 		switch op {
 		case "NULLABLE":
 			var ns []string
@@ -288,6 +360,12 @@ func other(g *grammar.CFG, op string) string {
 			_ = lr.NewGrammarWithLR0Kernel(g)
 		case "LR1K":
 			_ = lr.NewGrammarWithLR1Kernel(g)
+		case "LRC":
+			_, _ = canonical.BuildParsingTable(g, lr.PrecedenceLevels{})
+		case "LRL":
+			_, _ = lookahead.BuildParsingTable(g, lr.PrecedenceLevels{})
+		case "LRS":
+			_, _ = simple.BuildParsingTable(g, lr.PrecedenceLevels{})
 		default:
 			return "?"
 		}
@@ -307,9 +385,10 @@ func suffixes() string {
 	return "ok prime=" + f(p) + " alpha=" + f(a) + " numeric=" + f(n)
 }
 
-var allOps = []string{"NULLABLE", "DEL", "UNIT", "UNREACH", "CYCLES", "ELR", "LF", "START", "TERM", "BIN", "CNF", "PBT", "LR0", "LR1", "LR0K", "LR1K"}
+var allOps = []string{"NULLABLE", "DEL", "UNIT", "UNREACH", "CYCLES", "ELR", "LF", "START", "TERM", "BIN", "CNF", "PBT", "LR0", "LR1", "LR0K", "LR1K", "LRS", "LRL", "LRC"}
 
 type gcase struct {
+	shared bool // bodies share backing arrays / have spare capacity (header M=s)
 	start  string
 	extraT []string
 	prods  []prod
@@ -317,6 +396,9 @@ type gcase struct {
 
 func header(c gcase) string {
 	h := "S=" + hx(c.start)
+	if c.shared {
+		h += " M=s"
+	}
 	if len(c.extraT) > 0 {
 		h += " T=" + hxList(append([]string(nil), c.extraT...))
 	}
@@ -329,6 +411,8 @@ func runCase(w *tr.W, head string, ops []string) {
 	for _, f := range strings.Fields(head) {
 		if strings.HasPrefix(f, "S=") {
 			c.start = unhx(f[2:])
+		} else if f == "M=s" {
+			c.shared = true
 		} else if strings.HasPrefix(f, "T=") && len(f) > 2 {
 			for _, t := range strings.Split(f[2:], ",") {
 				c.extraT = append(c.extraT, unhx(t))
@@ -342,8 +426,10 @@ func runCase(w *tr.W, head string, ops []string) {
 			}
 		}
 	}
-	g := build(c.start, c.extraT, c.prods)
-	valid := g.Verify() == nil
+	// ref is never handed to the code under test: it is the "clone taken before the call", built
+	// independently so that it shares no backing array with the receiver
+	ref := build(c.start, c.extraT, c.prods)
+	valid := ref.Verify() == nil
 	w.Begin("%s", header(c))
 	for _, op := range ops {
 		name := strings.Fields(op)[0]
@@ -355,9 +441,9 @@ func runCase(w *tr.W, head string, ops []string) {
 		case !valid:
 			w.Op(name, "INVALID")
 		case name == "NULLABLE" || name == "PBT" || strings.HasPrefix(name, "LR"):
-			w.Op(name, other(g, name))
+			w.Op(name, other(buildLayout(c.start, c.extraT, c.prods, c.shared), ref, name))
 		default:
-			w.Op(name, transform(g, name))
+			w.Op(name, transform(buildLayout(c.start, c.extraT, c.prods, c.shared), ref, name))
 		}
 		if hung > 3 {
 			w.Flush()
@@ -410,8 +496,20 @@ func emit(w *tr.W, c gcase, ops []string) bool {
 				continue
 			}
 		}
+		if op == "LRC" || op == "LRL" || op == "LRS" {
+			// LR automata (canonical LR(1) in particular) are built only in the frame batches of C09
+			// (-frame) and only for small grammars
+			l := 0
+			for _, p := range c.prods {
+				l += len(p.body) + 1
+			}
+			if !frameOps || len(c.prods) > 8 || l > 30 || (lrEvery > 1 && emitted%lrEvery != 0) {
+				continue
+			}
+		}
 		all = append(all, op)
 	}
+	emitted++
 	runCase(w, header(c), all)
 	return true
 }
@@ -497,7 +595,7 @@ func exhaustive(w *tr.W, nts []string, terms []string, maxAlt, maxLen int, strid
 }
 
 var ntNames = []string{"S", "A", "B", "C", "D", "E"}
-var odd = []string{"S′", "A₁", "Aₙ", "S″", "B′", "A₁₂"}
+var odd = []string{"S′", "A₁", "Aₙ", "S″", "B′", "A₁₂", "\"a\"", "$"}
 
 func randomGrammar(r *rng.R) gcase {
 	nn := r.Range(1, 5)
@@ -548,8 +646,12 @@ func randomGrammar(r *rng.R) gcase {
 		nt = len(terms)
 	}
 	if r.Chance(1, 12) {
-		// the endmarker used as an ordinary terminal of the caller's grammar
-		terms[r.Intn(nt)] = string(grammar.Endmarker)
+		// the endmarker used as an ordinary terminal of the caller's grammar, half of the time together
+		// with the distinct ordinary terminal "$" (both render as $ through Name())
+		if nt >= 2 && r.Bool() {
+			terms[0] = "$"
+		}
+		terms[nt-1] = string(grammar.Endmarker)
 		seenT := map[string]bool{}
 		var ut []string
 		for _, t := range terms {
@@ -620,6 +722,8 @@ func randomGrammar(r *rng.R) gcase {
 	if r.Chance(1, 8) {
 		c.extraT = []string{"z"}
 	}
+	// one third of the receivers hold bodies that share backing arrays / have spare capacity
+	c.shared = r.Chance(1, 3)
 	if r.Chance(1, 8) {
 		// endmarker declared (unused) among the caller's terminals
 		c.extraT = append(c.extraT, string(grammar.Endmarker))
@@ -631,7 +735,7 @@ func randomGrammar(r *rng.R) gcase {
 func adversarial(w *tr.W, r *rng.R, n int, ops []string) {
 	for i := 0; i < n; i++ {
 		var c gcase
-		switch i % 9 {
+		switch i % 11 {
 		case 0: // long body, every position nullable (D08a)
 			k := r.Range(4, 8)
 			c.start = "S"
@@ -741,6 +845,25 @@ func adversarial(w *tr.W, r *rng.R, n int, ops []string) {
 			if r.Bool() {
 				c.prods = append(c.prods, prod{"S", []sym{}})
 			}
+		case 9: // bodies that are prefix slices of a longer body and end in a non-terminal (shared layout)
+			c.start = "S"
+			c.shared = true
+			long := []sym{T("a"), NT("B"), T("c")}
+			if r.Bool() {
+				long = []sym{NT("B"), T("a"), NT("B"), T("c"), T("a")}
+			}
+			k := r.Range(1, len(long)-1)
+			c.prods = append(c.prods, prod{"S", append([]sym{}, long[:k]...)}, prod{"S", long}, prod{"B", []sym{T("b")}})
+			if r.Bool() {
+				c.prods = append(c.prods, prod{"B", append([]sym{}, long[:r.Range(1, len(long)-1)]...)})
+			}
+		case 10: // two distinct terminals with the same Name(): the endmarker and "$", non-solitary
+			c.start = "S"
+			em := string(grammar.Endmarker)
+			c.prods = append(c.prods, prod{"S", []sym{T("a"), T("$")}}, prod{"S", []sym{T("b"), T(em)}})
+			if r.Bool() {
+				c.prods = append(c.prods, prod{"S", []sym{T("$"), NT("S"), T(em)}})
+			}
 		default: // long bodies mixing terminals and non-terminals (TERM/BIN chains)
 			c.start = "S"
 			k := r.Range(3, 8)
@@ -762,6 +885,7 @@ func main() {
 	mode := flag.String("mode", "exhaustive", "exhaustive|random|adversarial")
 	tier := flag.String("tier", "quick", "quick|thorough")
 	replay := flag.String("replay", "", "case file to re-execute")
+	flag.BoolVar(&frameOps, "frame", false, "also build the LR parsing tables (C09 frame checks)")
 	flag.Parse()
 	w := tr.NewW()
 	defer w.Flush()
@@ -780,6 +904,7 @@ func main() {
 	r := rng.FromEnv(8)
 	switch *mode {
 	case "exhaustive":
+		lrEvery = 5
 		// the suffix lists of cfg.go, compared with the model's on every run
 		runCase(w, "S="+hx("S"), []string{"P " + encProd(prod{"S", []sym{T("a")}}), "SUFFIXES"})
 		off := r.Intn(1 << 20)
